@@ -112,7 +112,10 @@ def main(which):
             tot[k] += o.get(k, 0)
         for mm in o["mismatch"]:
             if mm["kind"] not in mine:
-                continue
+                # C07: a one-call run under a checkpointing layout is a run composed of chunks in time; its recordings must be the
+                # ones every split / continued / manually stepped run reproduces (TLC's integers)
+                if not (which == "C07" and mm["kind"] == "recordings" and mm.get("L")):
+                    continue
             if which == "C06" and mm["kind"] == "recordings" and not mm.get("L"):
                 continue            # plain runs are C08's business; C06 is about layouts and modes
             sig = {"kind": mm["kind"], "layout_given": bool(mm.get("L")), "tmax_given": mm.get("tmax", 0) > 0, "data_stimulus": bool(mm.get("dat"))}
